@@ -34,6 +34,9 @@ struct Bounds {
     nplace: u64, // stack placements
     /// symbol menus (ids) used on every variant; x86 adds the two STACK WIN menus (8, 9)
     syms: &'static [u64],
+    /// second word alphabet: code / stack addresses decorated with high bits (a signed or tagged pointer is
+    /// NOT the address it would strip to: as a stack word it is data)
+    tagged: bool,
 }
 
 // odd on purpose: a return address with its low bit set (Thumb) must be reported as stored, bit included
@@ -89,7 +92,9 @@ fn decode(vi: usize, b: &Bounds, idx: u64) -> Case {
     // byte of the first module, so module attribution by the wrong one of the two addresses shows
     let nofunc = if modmenu == 1 { modbase + MODSZ } else { modbase + MOD_OFF_NOFUNC };
     let alphabet = [0, 4095, in_func, nofunc, base, base.wrapping_add(p), base.wrapping_add(size) & top, top, 4096, base.wrapping_add(2 * p), 1, base.wrapping_add(size).wrapping_sub(p) & top];
-    let words = (0..n).map(|i| alphabet[dg[i] as usize]).collect();
+    let tag: u64 = if p == 8 { 0x0008_0000_0000_0000 } else { 0x8000_0000 };
+    let tagged = [0, in_func, in_func | tag, nofunc | tag, base.wrapping_add(p), base.wrapping_add(2 * p) | tag, (in_func | tag) ^ (tag << 3), nofunc];
+    let words = (0..n).map(|i| if b.tagged { tagged[dg[i] as usize] } else { alphabet[dg[i] as usize] }).collect();
     let bs = base.wrapping_add(size) & top;
     let regs = match ctx {
         0 => (in_func, base, base + p, in_func),
@@ -317,10 +322,10 @@ fn main() {
         const MAIN_SYMS: &[u64] = &[0, 1, 2, 3, 4, 5, 6];
         const ALL_SYMS: &[u64] = &[0, 1, 2, 3, 4, 5, 6, 7, 10];
         const PINGPONG: &[u64] = &[10];
-        let b = if quick { Bounds { n: 4, k: 8, nctx: 8, nvalid: 3, nmod: 2, nplace: 2, syms: MAIN_SYMS } } else { Bounds { n: 5, k: 9, nctx: 8, nvalid: 3, nmod: 2, nplace: 2, syms: MAIN_SYMS } };
+        let b = if quick { Bounds { n: 4, k: 8, nctx: 8, nvalid: 3, nmod: 2, nplace: 2, syms: MAIN_SYMS, tagged: false } } else { Bounds { n: 5, k: 9, nctx: 8, nvalid: 3, nmod: 2, nplace: 2, syms: MAIN_SYMS, tagged: false } };
         // thorough only: the remaining menu values (validity singletons, no module / module at the top of
         // the address space, stack whose end wraps, word-per-frame CFI without memory access) on shorter stacks
-        let extras = Bounds { n: 3, k: 12, nctx: 8, nvalid: 6, nmod: 4, nplace: 3, syms: ALL_SYMS };
+        let extras = Bounds { n: 3, k: 12, nctx: 8, nvalid: 6, nmod: 4, nplace: 3, syms: ALL_SYMS, tagged: false };
         let mut def = CheckDef::new(
             "C05",
             "exploration",
@@ -338,7 +343,7 @@ fn main() {
         def.extra.insert("validity_menus".into(), json!(b.nvalid));
         def.extra.insert("module_menus".into(), json!(b.nmod));
         def.extra.insert("placements".into(), json!(b.nplace));
-        def.extra.insert("symbol_menus".into(), json!("7 (9 on x86 with STACK WIN framedata / fpo); the 'extras' spaces add the word-per-frame memory-free CFI menu"));
+        def.extra.insert("symbol_menus".into(), json!("7 (9 on x86 with STACK WIN framedata / fpo); the 'extras' spaces add the word-per-frame memory-free CFI menu; the 'tagged-words' spaces use a second word alphabet (code and stack addresses with high bits set: bit 51 on 64-bit, bit 31 on 32-bit CPUs) on 3-word stacks"));
         if !quick {
             def.extra.insert("extras_spaces".into(), json!({"stack_words_N": extras.n, "alphabet_K": extras.k, "contexts": extras.nctx, "validity_menus": extras.nvalid, "module_menus": extras.nmod, "placements": extras.nplace, "symbol_menus": "8 (10 on x86)"}));
         }
@@ -349,12 +354,22 @@ fn main() {
         }
         // both tiers: CFI ranges that hand control to each other without moving sp (a walk must not cycle)
         {
-            let pp = Bounds { n: 2, k: 8, nctx: 8, nvalid: 3, nmod: 2, nplace: 2, syms: PINGPONG };
+            let pp = Bounds { n: 2, k: 8, nctx: 8, nvalid: 3, nmod: 2, nplace: 2, syms: PINGPONG, tagged: false };
             for (vi, (arch, os)) in VARIANTS5.iter().enumerate() {
                 let b = pp;
                 let len = b.k.pow(b.n) * b.nctx * b.nvalid * nsym(*arch, &b) * b.nmod * b.nplace;
                 let name = format!("pingpong-{}-{}", arch.name(), os_name(*os));
                 def.spaces.push(Space::new(&name, len, move |idx, l| run_case(vi, &b, idx, l), move |idx| describe(vi, &b, idx)).chunked(1024));
+            }
+        }
+        // both tiers: stack words that are code / stack addresses with extra high bits set
+        {
+            let tg = Bounds { n: 3, k: 8, nctx: 8, nvalid: 3, nmod: 2, nplace: 2, syms: MAIN_SYMS, tagged: true };
+            for (vi, (arch, os)) in VARIANTS5.iter().enumerate() {
+                let b = tg;
+                let len = b.k.pow(b.n) * b.nctx * b.nvalid * nsym(*arch, &b) * b.nmod * b.nplace;
+                let name = format!("tagged-words-{}-{}", arch.name(), os_name(*os));
+                def.spaces.push(Space::new(&name, len, move |idx, l| run_case(vi, &b, idx, l), move |idx| describe(vi, &b, idx)).chunked(4096));
             }
         }
         if !quick {
